@@ -90,6 +90,7 @@ func c13Prop(st *CaseStats, fam int) func(t *rapid.T) {
 		hist := ""
 		nt := false
 		var labels []string
+		var termBuf []byte
 		fail := func(format string, args ...interface{}) {
 			t.Fatalf("%s\n  history:%s\n  %s", desc, hist, fmt.Sprintf(format, args...))
 		}
@@ -173,7 +174,8 @@ func c13Prop(st *CaseStats, fam int) func(t *rapid.T) {
 						dicts[dk] = d
 					}
 					var err error
-					pl, err = d.PostingsList([]byte(term), except, pre)
+					termBuf = append(termBuf[:0], term...) // one term buffer kept and overwritten by the caller
+					pl, err = d.PostingsList(termBuf, except, pre)
 					if err != nil {
 						return err
 					}
